@@ -2,6 +2,7 @@ import threading
 import asyncio
 
 from .base_runner import BaseRunner, OrphanedReturn
+from ._verif import point
 
 
 class ThreadRunner(BaseRunner):
@@ -42,11 +43,13 @@ class ThreadRunner(BaseRunner):
             if result is None:
                 return
             failure = OrphanedReturn(payload, result)
+        point("h.fail.post")
         self.asyncio_loop.call_soon_threadsafe(self._set_failure, failure)
 
     def _set_failure(self, failure: BaseException):
         if not self._payload_failure.done():
             self._payload_failure.set_exception(failure)
+            point("h.fail.set")
 
     async def manage_payloads(self):
         await self._payload_failure
